@@ -309,6 +309,31 @@ class Texts(object):
                 segment += '\n' + (ast.get_source_segment(self.files[rel], st) or '')
         return any(re.search(r'\b%s\.' % re.escape(pkg), segment) for pkg in rebound)
 
+    def reentrant_shape(self, rel, name):
+        """Does the class contain a shape whose analysis looks the instance table up while the assignments
+        through self are still being collected: a property setter, or an assignment through a local alias of
+        a self attribute / of the result of a self method (``r = self.root; r.x = 1``)?"""
+        cd = self.classdef(rel, name)
+        if cd is None:
+            return False
+        for st in cd.body:
+            if not isinstance(st, (ast.FunctionDef, ast.AsyncFunctionDef)) or not st.args.args:
+                continue
+            if any(isinstance(d, ast.Attribute) and d.attr == 'setter' for d in st.decorator_list):
+                return True
+            first = st.args.args[0].arg
+            aliases = set()
+            for n in ast.walk(st):
+                if isinstance(n, ast.Assign) and len(n.targets) == 1 and isinstance(n.targets[0], ast.Name):
+                    v = n.value.func if isinstance(n.value, ast.Call) else n.value
+                    if isinstance(v, ast.Attribute) and isinstance(v.value, ast.Name) and v.value.id == first:
+                        aliases.add(n.targets[0].id)
+            for n in ast.walk(st):
+                if isinstance(n, ast.Attribute) and isinstance(n.ctx, ast.Store) and \
+                        isinstance(n.value, ast.Name) and n.value.id in aliases:
+                    return True
+        return False
+
     def def_line(self, rel, qualname):
         for n in self.tree(rel).body:
             if isinstance(n, (ast.FunctionDef, ast.ClassDef)) and n.name == qualname:
@@ -451,9 +476,10 @@ def check_query(part, project, root, q, desc, only_attr=None):
 
     required = {}      # attr -> ('inst'|'class', mro index of the defining class or None)
     filtered_builtin = 0
+    builtin_first = {}  # attr -> (builtin class selected by the MRO, source classes later on the MRO binding it)
     names = set()
     for k in mro_src:
-        names.update(n for n in k['vars'] if n not in IMPLICIT)
+        names.update(n for n in k['vars'] if n not in IMPLICIT or n in cls_bind[k['name']])
     names.update(inst)
     for n in sorted(names):
         first = next((i for i, k in enumerate(mro) if n in k['vars']), None)
@@ -467,7 +493,13 @@ def check_query(part, project, root, q, desc, only_attr=None):
         if first is None:
             continue
         if not mro[first]['source']:
+            # Python's lookup selects a builtin class's attribute: nothing source-defined to propose, and
+            # go-to-definition must not land in a source file (checked below for names that a source class
+            # later on the MRO binds too)
             filtered_builtin += 1
+            later = [k['name'] for k in mro_src if n in cls_bind[k['name']]]
+            if later:
+                builtin_first[n] = (mro[first]['name'], later)
             continue
         if n not in cls_bind[mro[first]['name']]:
             part.count('class_var_not_bound_in_body(filtered)')
@@ -490,6 +522,8 @@ def check_query(part, project, root, q, desc, only_attr=None):
             own = any(s[0] == mro_src[0]['file'] and n in texts.self_sites(mro_src[0]['file'], mro_src[0]['name'])
                       for s in self_sites[n])
             where = 'instance-attr:own-method' if own else 'instance-attr:base-method'
+            if any(texts.reentrant_shape(k['file'], k['name']) for k in mro_src):
+                where += '+class-with-setter-or-alias-assignment'
         else:
             i = mro_src.index(mro[first])
             where = 'own-class-attr' if i == 0 else 'base-class-attr:via=%s' % via_to(project, mro_src, i)
@@ -510,6 +544,40 @@ def check_query(part, project, root, q, desc, only_attr=None):
     rng = random.Random('%s:%s' % (q['id'], q['expr']))
     if len(attrs) > MAX_ATTRS_PER_QUERY:
         attrs = attrs[:5] + rng.sample(attrs[5:], MAX_ATTRS_PER_QUERY - 5)
+
+    bf = sorted(builtin_first)
+    if only_attr is not None:
+        bf = [a for a in bf if a == only_attr]
+    for n in bf[:4]:
+        ltext, lpos = gen_class.query_text(project, q, n)
+        try:
+            result = supp_location(root, ltext, lpos, filename)
+        except Exception as e:
+            part.count('supp_exceptions(C08, skipped)')
+            part.hist('supp_exception_types', 'location(builtin-first):%s:%s' % (kind, type(e).__name__))
+            continue
+        part.count('location_calls')
+        part.count('location_comparisons')
+        part.count('builtin_first_location_checks')
+        part.hist('location_expected', '%s:builtin-first' % group)
+        part.hist('builtin_first_cells', '%s.%s before %s' % (builtin_first[n][0], n, 'source'))
+        nontrivial = True
+        _, chain = landing_sites(result, root)
+        src_sites = sorted(set(s for g in chain for s in g if s[0] in project['files']))
+        if src_sites:
+            # is the selected builtin class written in a class statement, or only an ancestor of a listed builtin?
+            listed = set()
+            for k in mro_src:
+                cd = texts.classdef(k['file'], k['name'])
+                for b in (cd.bases if cd is not None else []):
+                    listed.add(ast.unparse(b).rpartition('.')[2])
+            how = 'listed-builtin-base' if builtin_first[n][0] in listed else 'ancestor-of-listed-builtin-base'
+            viol(part, 'lands-on-source-although-builtin-first-on-mro:%s' % how,
+                 '`%s.%s` (%s, %s): the MRO selects %s.%s (builtin, no source location; also bound later on the MRO in %s); '
+                 'supp lands on %s' % (q['expr'], n, kind, q['sub'], builtin_first[n][0], n, builtin_first[n][1], src_sites),
+                 case({'check': 'location', 'attr': n}))
+        else:
+            part.count('location_ok')
 
     for n in attrs:
         ltext, lpos = gen_class.query_text(project, q, n)
@@ -566,6 +634,8 @@ def check_query(part, project, root, q, desc, only_attr=None):
         mech = None
         if not got:
             mech = 'no-location:%s' % expcat
+            if expcat == 'self-assign' and any(texts.reentrant_shape(k['file'], k['name']) for k in mro_src):
+                mech += '+class-with-setter-or-alias-assignment'
         else:
             cats = set()
             for s in got:
